@@ -195,6 +195,10 @@ def main():
     c.trusted = ["TLC", "tools/exact.py comparator (mpmath, 40 digits)", "harness dm query"]
     c.assumptions = ["exact family (rational spectra) for the absolute comparison; general models relationally",
                      "tolerance 1e-9 + beta * 1e-11 * max|E| (propagated eigenvalue rounding)"]
+    # call histories of the documented workflow (spec/Workflow.tla): repeated prepare()/compute() are no-ops, a call changes the data of
+    # its own object only, and whatever the history, the finished object holds the data of the canonical linear order
+    import workflow
+    workflow.attach(c, {"DM", "EA"}, 'density matrix / ensemble average')
     c.finish()
 
 
